@@ -103,7 +103,9 @@ def ode_energy(cap, charge, pmax, ts, pilot, V, T):
         return (s - charge / cap) * cap, crossed
     # smooth phase: ds/dt = pmax*(1-s)/((1-ts)*cap); RK4 (the law is linear here, but the reference does not use its closed form)
     k = pmax / ((1.0 - ts) * cap)
-    n = 256
+    n = max(256, int(math.ceil(k * (hours - t) / 0.02)))  # k*h <= 0.02: RK4 stable and accurate to < 1e-10
+    if k * (hours - t) > 60.0:  # the remaining gap has decayed by e^-60: numerically full
+        n, hours = max(256, int(math.ceil(60.0 / 0.02))), t + 60.0 / k
     h = (hours - t) / n
     f = lambda x: k * (1.0 - x)
     for _ in range(n):
